@@ -82,3 +82,51 @@ Definition word_tostr (kw : text) (with_colons : bool) (r : wordres) : text :=
            end
   | _ => kw
   end.
+
+(* ---- STRINGBase.match(pattern, string) / StringBase.match(pattern, string) for a string or a list of strings:
+        the (upper-cased, for STRINGBase) text is one of the patterns; the result is that text *)
+Definition strings_match (pats : list text) (fold : bool) (s : text) : option text :=
+  let u := if fold then upper s else s in
+  if existsb (text_eqb u) pats then Some u else None.
+
+(* ---- BracketBase.match(brackets, cls, string, require_cls) *)
+Inductive bres :=
+| BNo                    (* returns None *)
+| BEmpty                 (* (left, None, right) *)
+| BIn (inner : text).    (* (left, cls(inner), right) -- cls is outside the model *)
+
+Definition ends_with (p l : text) : bool := starts_with (rev p) (rev l).
+Definition bracket_halves (brackets : text) : text * text :=
+  let bn := drop_blanks brackets in
+  let n := Nat.div2 (length bn) in
+  (firstn n bn, skipn (length bn - n) bn).
+
+Definition bracket_match (brackets : text) (has_cls req : bool) (s : text) : bres :=
+  if negb has_cls && req then BNo else
+  match s with
+  | [] => BNo
+  | _ =>
+      let ss := strip s in
+      let bn := drop_blanks brackets in
+      match bn with
+      | [] => BNo
+      | _ =>
+          if Nat.odd (length bn) then BNo else
+          let n := Nat.div2 (length bn) in
+          let '(lft, rgt) := bracket_halves brackets in
+          if length ss <? n * 2 then BNo else
+          if negb (starts_with lft ss && ends_with rgt ss) then BNo else
+          let line := lstrip (firstn (length ss - n - n) (skipn n ss)) in
+          match line with
+          | [] => if has_cls && req then BNo else BEmpty
+          | _ => if has_cls then BIn line else BNo
+          end
+      end
+  end.
+
+Definition bracket_tostr (brackets : text) (r : bres) : text :=
+  let '(lft, rgt) := bracket_halves brackets in
+  match r with
+  | BIn inner => lft ++ inner ++ rgt
+  | _ => lft ++ rgt
+  end.
